@@ -124,6 +124,21 @@ func Inputs() []input {
 		{Locs: []ap.Loc{L(0, 0x1010, r), L(0, 0x1080, fl)}, Values: []int64{2, 2}},
 	}
 	ins = append(ins, input{"case-only-names", p})
+
+	// P9: entries that differ only in their binary: unsymbolized frames of two libraries with the same base
+	// name (equal printable names "[libx.so]"), and one function name defined in both, equal weights
+	p = base()
+	p.Maps = append(append([]ap.Map{}, enum.Maps2...),
+		ap.Map{Start: 0x20000, Limit: 0x21000, File: "/opt/v1/libx.so", HasFunctions: true},
+		ap.Map{Start: 0x30000, Limit: 0x31000, File: "/opt/v2/libx.so", HasFunctions: true})
+	g := ln("g", "g.go", 3)
+	p.Stacks = []ap.Stack{
+		{Locs: []ap.Loc{L(0, 0x1010, r), loc(2, 0x20010)}, Values: []int64{2, 2}},
+		{Locs: []ap.Loc{L(0, 0x1010, r), loc(3, 0x30010)}, Values: []int64{2, 2}},
+		{Locs: []ap.Loc{L(0, 0x1010, r), L(2, 0x20020, g)}, Values: []int64{2, 2}},
+		{Locs: []ap.Loc{L(0, 0x1010, r), L(3, 0x30020, g)}, Values: []int64{2, 2}},
+	}
+	ins = append(ins, input{"same-entry-other-binary", p})
 	return ins
 }
 
